@@ -61,6 +61,8 @@ enum Case {
     /// honest-algorithm shares of a set below the real threshold, thresholds lied about:
     /// whatever aggregate returns as Ok must verify (C04's first sentence)
     Below { suite: String, n: u16, t: u16, signers: u32, seed: String },
+    /// a large signer set with cheaters at the first, a middle and the last position
+    Large { suite: String, signers: u16, seed: String },
     /// every error vector in GF(q)^k on a fixed non-degenerate session
     Tiny { q: u64, n: u16, t: u16, k: usize, seed: String },
 }
@@ -221,6 +223,10 @@ impl Prop for C04 {
                 }
             }
         }
+        for suite in REAL_SUITES {
+            let k = if suite == "ed448" { tier.pick(40u16, 90u16) } else { tier.pick(100u16, 200u16) };
+            out.push(serde_json::to_value(Case::Large { suite: suite.to_string(), signers: k, seed: format!("s{seed}") }).unwrap());
+        }
         for q in [7u64, 11, 13] {
             for k in 2..=tier.pick(3usize, 4usize) {
                 for (n, t) in [(k as u16, k as u16), (k as u16 + 1, 2u16)] {
@@ -247,6 +253,7 @@ impl Prop for C04 {
         match &c {
             Case::Real { suite, .. } => with_suite!(suite.as_str(), run_real, &c),
             Case::Below { suite, .. } => with_suite!(suite.as_str(), run_below, &c),
+            Case::Large { suite, .. } => with_suite!(suite.as_str(), run_large, &c),
             Case::Tiny { q, .. } => match q {
                 7 => run_tiny::<7>(&c),
                 11 => run_tiny::<11>(&c),
@@ -473,6 +480,55 @@ fn run_real<C: Suite>(c: &Case) -> Outcome {
             }
         }
     }
+    o
+}
+
+fn run_large<C: Suite>(c: &Case) -> Outcome {
+    let mut o = Outcome::new();
+    let Case::Large { signers, seed, .. } = c else { unreachable!() };
+    let tag = format!("C04/{}/large", C::name());
+    let n = *signers + 30;
+    let grp = match make_group::<C>(KeySrc::Dealer, n, 2, IdKind::Seq, seed) {
+        Ok(g) => g,
+        Err(e) => {
+            o.fail(format!("{tag}/setup"), e);
+            return o;
+        }
+    };
+    // the last `signers` participants (identifiers above 255 for the larger sets, gaps before them)
+    let s: Vec<_> = grp.ids.iter().rev().take(*signers as usize).rev().copied().collect();
+    let m = message(2);
+    let sess = match run_session::<C>(&grp.kps, &s, &m, &format!("{seed}:large")) {
+        Ok(x) => x,
+        Err(e) => {
+            o.fail(format!("{tag}/setup"), e);
+            return o;
+        }
+    };
+    let honest = match C::w_aggregate(&sess.pkg, &sess.shares, &grp.pkp) {
+        Ok(x) => x,
+        Err(e) => {
+            o.fail(format!("{tag}/honest-aggregate-failed"), format!("{e:?}"));
+            return o;
+        }
+    };
+    let k = s.len();
+    for chs in [vec![0usize], vec![k / 2], vec![k - 1], vec![0, k / 2, k - 1], vec![k - 2, k - 1]] {
+        let mut errs = vec![zero::<C>(); k];
+        let mut shares = sess.shares.clone();
+        for ci in &chs {
+            let zi = share_scalar::<C>(&sess.shares[&s[*ci]]);
+            errs[*ci] = one::<C>();
+            shares.insert(s[*ci], share_from_scalar::<C>(zi + one::<C>()));
+        }
+        o.eval(true);
+        let ctx = format!("large |S|={k} cheaters(pos)={chs:?}");
+        let pkp = grp.pkp.clone();
+        let pkg = sess.pkg.clone();
+        let agg = move |sh: &BTreeMap<Id<C>, SignatureShare<C>>, cd: CheaterDetection| C::w_aggregate_custom(&pkg, sh, &pkp, cd);
+        check_modes::<C>(&mut o, &tag, &ctx, &s, &honest, &errs, &agg, &shares, grp.pkp.verifying_key(), &m);
+    }
+    o.class("large");
     o
 }
 
